@@ -1117,4 +1117,739 @@ example : let pre : List Ev := [.start]
     received (sysRun (Sys.init [false, true]) (pre ++ [.sub 1] ++ post)).fan 0 = [0, 2] := by
   decide +kernel
 
+/-! ### Round 7 additions — what ONE queue sees of an arbitrary history (no hypothesis on the ops)
+
+`specStep_at` / `specRun_at` follow a single queue of the specification through any op / any
+history; with `queue_is_run` they give, for the code-shaped model and EVERY history (rejected
+frames, restarts, enable changes, other subscribers coming and going): unsubscription is final
+(`unsub_is_final`), queue contents only ever grow at the end (`received_prefix_mono`), and a queue
+subscribed to `c` holds a subsequence of the `c`-samples processed since its subscription
+(`received_sublist_since_sub`, `received_length_le`). -/
+
+/-- one op, seen from queue `q` of the specification: the subscription stays or is dropped (dropped for
+    sure by `unsub q`), the content grows at the end by nothing or by the op's samples of the
+    channel the queue is subscribed to -/
+theorem specStep_at (sp : Spec) (op : Op) (q : Nat) (e : QSpec) (h : sp.qs[q]? = some e) :
+    ∃ sub' d, (specStep sp op).qs[q]? = some ⟨sub', e.got ++ d⟩ ∧ (sub' = e.sub ∨ sub' = none) ∧
+      (op = .unsub q → sub' = none) ∧ (d = [] ∨ ∃ c, e.sub = some c ∧ d = op.samplesOf c) := by
+  have same : sp.qs[q]? = some ⟨e.sub, e.got ++ []⟩ := by rw [h, List.append_nil]
+  obtain ⟨hq, _⟩ := List.getElem?_eq_some_iff.mp h
+  cases op with
+  | frame fl ss =>
+    rcases Bool.eq_false_or_eq_true sp.dead with hd | hd
+    · rw [specStep_frame_dead fl ss hd]; exact ⟨_, _, same, .inl rfl, (fun h => by cases h), .inl rfl⟩
+    · rcases Bool.eq_false_or_eq_true (ss.any (fun x => x.chan ≥ sp.enabled.length)) with hb | hb
+      · rw [specStep_frame_bad fl ss hd hb]; exact ⟨_, _, same, .inl rfl, (fun h => by cases h), .inl rfl⟩
+      · rw [specStep_frame_good fl ss hd hb]
+        refine ⟨(qFrame sp.enabled ss e).sub,
+          (match e.sub with | some c => group sp.enabled ss c | none => []), ?_,
+          .inl (qFrame_sub _ _ _), (fun h => by cases h), ?_⟩
+        · show (sp.qs.map _)[q]? = _
+          rw [List.getElem?_map, h, Option.map_some, ← qFrame_got]
+        · cases hs : e.sub with
+          | none => exact .inl rfl
+          | some c =>
+            show group sp.enabled ss c = [] ∨ ∃ c', some c = some c' ∧ group sp.enabled ss c = Op.samplesOf c' (.frame fl ss)
+            rw [group_eq]
+            by_cases he : sp.enabled.getD c false = true
+            · rw [if_pos he]; exact .inr ⟨c, rfl, rfl⟩
+            · rw [if_neg he]; exact .inl rfl
+  | badFrame => exact ⟨_, _, same, .inl rfl, (fun h => by cases h), .inl rfl⟩
+  | sub ch =>
+    by_cases hc : ch < sp.enabled.length
+    · refine ⟨e.sub, [], ?_, .inl rfl, (fun h => by cases h), .inl rfl⟩
+      simp only [specStep, if_pos hc]
+      rw [List.getElem?_append_left hq, h, List.append_nil]
+    · refine ⟨e.sub, [], ?_, .inl rfl, (fun h => by cases h), .inl rfl⟩
+      simp only [specStep, if_neg hc]
+      exact same
+  | subNeg k =>
+    by_cases hc : k < sp.enabled.length
+    · refine ⟨e.sub, [], ?_, .inl rfl, (fun h => by cases h), .inl rfl⟩
+      simp only [specStep, if_pos hc]
+      rw [List.getElem?_append_left hq, h, List.append_nil]
+    · refine ⟨e.sub, [], ?_, .inl rfl, (fun h => by cases h), .inl rfl⟩
+      simp only [specStep, if_neg hc]
+      exact same
+  | unsub k =>
+    by_cases hk : q = k
+    · refine ⟨none, [], ?_, .inr rfl, fun _ => rfl, .inl rfl⟩
+      simp only [specStep]
+      rw [List.getElem?_mapIdx, h, Option.map_some, if_pos hk, List.append_nil]
+    · refine ⟨e.sub, [], ?_, .inl rfl, (fun h => by injection h with h; exact absurd h.symm hk), .inl rfl⟩
+      simp only [specStep]
+      rw [List.getElem?_mapIdx, h, Option.map_some, if_neg hk, List.append_nil]
+  | setEnabled v =>
+    by_cases hc : v.length = sp.enabled.length
+    · refine ⟨e.sub, [], ?_, .inl rfl, (fun h => by cases h), .inl rfl⟩
+      simp only [specStep, if_pos hc]; exact same
+    · refine ⟨e.sub, [], ?_, .inl rfl, (fun h => by cases h), .inl rfl⟩
+      simp only [specStep, if_neg hc]; exact same
+  | restart => exact ⟨_, _, same, .inl rfl, (fun h => by cases h), .inl rfl⟩
+
+/-- a whole history, seen from queue `q` of the specification: its content grows at the end by a
+    `d` that is empty if the queue is unsubscribed and otherwise a subsequence of the history's samples
+    of the queue's channel -/
+theorem specRun_at (sp : Spec) (post : List Op) (q : Nat) (e : QSpec) (h : sp.qs[q]? = some e) :
+    ∃ sub' d, (specRun sp post).qs[q]? = some ⟨sub', e.got ++ d⟩ ∧ (sub' = e.sub ∨ sub' = none) ∧
+      (e.sub = none → d = []) ∧ (∀ c, e.sub = some c → d.Sublist (post.flatMap (Op.samplesOf c))) := by
+  induction post generalizing sp e with
+  | nil =>
+    exact ⟨e.sub, [], by rw [specRun, h, List.append_nil], .inl rfl, fun _ => rfl, fun _ _ => List.nil_sublist _⟩
+  | cons op r ih =>
+    obtain ⟨s1, d1, h1, hs1, _, hd1⟩ := specStep_at sp op q e h
+    obtain ⟨s2, d2, h2, hs2, hn2, hsl2⟩ := ih (specStep sp op) ⟨s1, e.got ++ d1⟩ h1
+    refine ⟨s2, d1 ++ d2, ?_, ?_, ?_, ?_⟩
+    · rw [specRun, h2, List.append_assoc]
+    · rcases hs2 with hs2 | hs2
+      · rcases hs1 with hs1 | hs1
+        · exact .inl (hs2.trans hs1)
+        · exact .inr (hs2.trans hs1)
+      · exact .inr hs2
+    · intro hn
+      have hs1' : s1 = none := by rcases hs1 with hs1 | hs1 <;> simp [hs1, hn]
+      have hd1' : d1 = [] := by
+        rcases hd1 with hd1 | ⟨c, hc, _⟩
+        · exact hd1
+        · rw [hn] at hc; cases hc
+      rw [hd1', hn2 hs1', List.append_nil]
+    · intro c hc
+      rw [List.flatMap_cons]
+      have hd2 : d2.Sublist (r.flatMap (Op.samplesOf c)) := by
+        rcases hs1 with hs1 | hs1
+        · exact hsl2 c (hs1.trans hc)
+        · rw [hn2 hs1]; exact List.nil_sublist _
+      rcases hd1 with hd1 | ⟨c', hc', hd1⟩
+      · rw [hd1]; exact (List.nil_sublist _).append hd2
+      · rw [hc] at hc'; injection hc' with hc'; subst hc'
+        rw [hd1]; exact (List.Sublist.refl _).append hd2
+
+/-- UNSUBSCRIPTION IS FINAL ("nothing is delivered to unsubscribed queues", for the whole future):
+    once `stream_unsub` of an existing queue has taken effect, NO later history — more frames,
+    re-subscriptions of the same channel by other queues, enable changes, restarts — adds anything
+    to that queue (queue objects are never re-used by `stream_sub`).
+    Quantifier: all `n`, all histories `pre`, `post`, every queue `q` existing after `pre`. -/
+theorem unsub_is_final (n : Nat) (pre post : List Op) (q : Nat) (hq : q < (run (St.init n) pre).nextQ) :
+    received (run (St.init n) (pre ++ [.unsub q] ++ post)) q = received (run (St.init n) pre) q := by
+  rw [queue_is_run, queue_is_run, specRun_append, specRun_append]
+  rw [(inv_reach n pre).nextQ] at hq
+  generalize specRun (Spec.init n) pre = sp at hq
+  have h : sp.qs[q]? = some sp.qs[q] := List.getElem?_eq_getElem hq
+  obtain ⟨s1, d1, h1, _, hn1, hd1⟩ := specStep_at sp (.unsub q) q _ h
+  have hs1 : s1 = none := hn1 rfl
+  have hd1' : d1 = [] := by
+    rcases hd1 with hd1 | ⟨c, _, hd1⟩
+    · exact hd1
+    · exact hd1
+  subst hs1 hd1'
+  obtain ⟨s2, d2, h2, _, hn2, _⟩ := specRun_at (specStep sp (.unsub q)) post q _ h1
+  have hd2 : d2 = [] := hn2 rfl
+  subst hd2
+  show ((specRun (specStep sp (.unsub q)) post).qs[q]?.map (·.got)).getD [] = _
+  rw [h2, h]
+  simp
+
+/-- QUEUES ONLY GROW AT THE END: whatever happens next (any ops), what a queue held before is a
+    prefix of what it holds afterwards — nothing already delivered is removed, reordered or
+    changed by later frames, subscriptions, unsubscriptions, enable changes, thread death or restart.
+    Quantifier: all `n`, all histories `pre`, `post`, all queue ids `q`. -/
+theorem received_prefix_mono (n : Nat) (pre post : List Op) (q : Nat) :
+    received (run (St.init n) pre) q <+: received (run (St.init n) (pre ++ post)) q := by
+  rw [queue_is_run, queue_is_run, specRun_append]
+  generalize specRun (Spec.init n) pre = sp
+  cases h : sp.qs[q]? with
+  | none => exact List.nil_prefix
+  | some e =>
+    obtain ⟨s2, d2, h2, _, _, _⟩ := specRun_at sp post q e h
+    rw [h2]
+    exact ⟨d2, rfl⟩
+
+/-- SAFETY OF DELIVERY FOR EVERY HISTORY: the queue created by `stream_sub(c)` after `pre` holds, after
+    ANY later history `post` (no well-formedness, liveness or enabledness hypothesis: frames the
+    decoder rejects, restarts, `unsub`, enable changes, other subscribers), a SUBSEQUENCE of the
+    `c`-samples of the frames of `post`, in device order — never a sample of another channel, never
+    a sample from before the subscription, never a sample twice or out of order.
+    (`run_since_subscription` is the matching completeness statement under its hypotheses.)
+    Quantifier: all `n`, all `c < n`, all histories `pre`, `post`. -/
+theorem received_sublist_since_sub (n : Nat) (pre post : List Op) (c : Nat) (hc : c < n) :
+    (received (run (St.init n) (pre ++ [.sub c] ++ post)) (run (St.init n) pre).nextQ).Sublist
+      (post.flatMap (Op.samplesOf c)) := by
+  have hI := inv_reach n pre
+  rw [queue_is_run, specRun_append, specRun_append, hI.nextQ]
+  have hlen : (specRun (Spec.init n) pre).enabled.length = n := by rw [← hI.en]; exact hI.enLen
+  generalize specRun (Spec.init n) pre = sp at hlen
+  have hsp : specRun sp [.sub c] = { sp with qs := sp.qs ++ [⟨some c, []⟩] } := by
+    show specStep sp (.sub c) = _
+    rw [specStep, if_pos (by rw [hlen]; exact hc)]
+  have h1 : (specRun sp [.sub c]).qs[sp.qs.length]? = some ⟨some c, []⟩ := by
+    rw [hsp]; exact List.getElem?_concat_length
+  obtain ⟨s2, d2, h2, _, _, hsl⟩ := specRun_at _ post _ _ h1
+  rw [h2]
+  simpa using hsl c rfl
+
+/-- length bound: the queue holds at most as many samples as the frames processed since its
+    subscription carried for its channel.  Quantifier: as `received_sublist_since_sub`. -/
+theorem received_length_le (n : Nat) (pre post : List Op) (c : Nat) (hc : c < n) :
+    (received (run (St.init n) (pre ++ [.sub c] ++ post)) (run (St.init n) pre).nextQ).length
+      ≤ (post.flatMap (Op.samplesOf c)).length :=
+  (received_sublist_since_sub n pre post c hc).length_le
+
+/-- instances: queue 0 (channel 1) is unsubscribed while queue 1 (same channel) stays: later
+    frames reach queue 1 only (`unsub_is_final` with `pre = [sub 1, sub 1, setEnabled …, frame …]`);
+    a history with a rejected frame, a restart and a disable/enable in `post` delivers a strict
+    subsequence `[5, 9]` of the channel's samples `[5, 6, 7, 8, 9]` (`received_sublist_since_sub`) -/
+example : (0 < (run (St.init 2) [.sub 1, .sub 1, .setEnabled [true, true], .frame 0 [⟨1, 4⟩]]).nextQ) ∧
+    received (run (St.init 2) ([.sub 1, .sub 1, .setEnabled [true, true], .frame 0 [⟨1, 4⟩]] ++ [.unsub 0]
+      ++ [.frame 0 [⟨1, 5⟩], .sub 1, .frame 0 [⟨1, 6⟩]])) 0 = [4] ∧
+    received (run (St.init 2) ([.sub 1, .sub 1, .setEnabled [true, true], .frame 0 [⟨1, 4⟩]] ++ [.unsub 0]
+      ++ [.frame 0 [⟨1, 5⟩], .sub 1, .frame 0 [⟨1, 6⟩]])) 1 = [4, 5, 6] := by decide +kernel
+
+example : received (run (St.init 2) ([.setEnabled [true, true], .frame 0 [⟨0, 1⟩]] ++ [.sub 0] ++
+      [.frame 0 [⟨0, 5⟩, ⟨1, 2⟩], .frame 0 [⟨0, 6⟩, ⟨9, 0⟩], .frame 0 [⟨0, 7⟩], .restart,
+       .setEnabled [false, true], .frame 1 [⟨0, 8⟩], .setEnabled [true, true], .frame 0 [⟨0, 9⟩]]))
+      (run (St.init 2) [.setEnabled [true, true], .frame 0 [⟨0, 1⟩]]).nextQ = [5, 9] ∧
+    ([Op.frame 0 [⟨0, 5⟩, ⟨1, 2⟩], .frame 0 [⟨0, 6⟩, ⟨9, 0⟩], .frame 0 [⟨0, 7⟩], .restart,
+       .setEnabled [false, true], .frame 1 [⟨0, 8⟩], .setEnabled [true, true], .frame 0 [⟨0, 9⟩]]).flatMap
+      (Op.samplesOf 0) = [5, 6, 7, 8, 9] := by decide +kernel
+
+
+/-! ### Round 7 additions — independence between subscribers -/
+
+/-- what one op does to the specification entry `e` of queue `q`; depends on the rest of the state
+    only through the enable vector and the `dead` bit -/
+def qStep (en : List Bool) (dead : Bool) (op : Op) (q : Nat) (e : QSpec) : QSpec :=
+  match op with
+  | .frame _ ss => if dead then e else if ss.any (fun x => x.chan ≥ en.length) then e else qFrame en ss e
+  | .unsub k => if q = k then { e with sub := none } else e
+  | _ => e
+
+theorem specStep_getElem (sp : Spec) (op : Op) (q : Nat) (e : QSpec) (h : sp.qs[q]? = some e) :
+    (specStep sp op).qs[q]? = some (qStep sp.enabled sp.dead op q e) := by
+  obtain ⟨hq, _⟩ := List.getElem?_eq_some_iff.mp h
+  cases op with
+  | frame fl ss =>
+    rcases Bool.eq_false_or_eq_true sp.dead with hd | hd
+    · rw [specStep_frame_dead fl ss hd, h]; simp [qStep, hd]
+    · rcases Bool.eq_false_or_eq_true (ss.any (fun x => x.chan ≥ sp.enabled.length)) with hb | hb
+      · rw [specStep_frame_bad fl ss hd hb]
+        show sp.qs[q]? = _
+        rw [h]; simp only [qStep, hd, hb, if_true, Bool.false_eq_true, if_false]
+      · rw [specStep_frame_good fl ss hd hb]
+        show (sp.qs.map _)[q]? = _
+        rw [List.getElem?_map, h, Option.map_some]
+        simp only [qStep, hd, hb, Bool.false_eq_true, if_false]
+  | badFrame => exact h
+  | sub ch =>
+    simp only [specStep, qStep]
+    split
+    · rw [List.getElem?_append_left hq, h]
+    · exact h
+  | subNeg k =>
+    simp only [specStep, qStep]
+    split
+    · rw [List.getElem?_append_left hq, h]
+    · exact h
+  | unsub k =>
+    simp only [specStep, qStep]
+    rw [List.getElem?_mapIdx, h, Option.map_some]
+  | setEnabled v =>
+    simp only [specStep, qStep]
+    split <;> exact h
+  | restart => exact h
+
+/-- the enable vector and the `dead` bit evolve independently of the queues -/
+theorem specStep_env (sp1 sp2 : Spec) (op : Op) (hen : sp1.enabled = sp2.enabled) (hd : sp1.dead = sp2.dead) :
+    (specStep sp1 op).enabled = (specStep sp2 op).enabled ∧ (specStep sp1 op).dead = (specStep sp2 op).dead := by
+  obtain ⟨en1, qs1, d1⟩ := sp1
+  obtain ⟨en2, qs2, d2⟩ := sp2
+  simp only at hen hd
+  subst hen hd
+  cases op <;> simp only [specStep] <;> (try split) <;> (try split) <;> simp_all
+
+/-- two specification states with the same enable vector, the same `dead` bit and the same entry for
+    queue `q` keep the same entry for `q` under every history -/
+theorem specRun_congr_at (sp1 sp2 : Spec) (post : List Op) (q : Nat) (e : QSpec)
+    (hen : sp1.enabled = sp2.enabled) (hd : sp1.dead = sp2.dead)
+    (h1 : sp1.qs[q]? = some e) (h2 : sp2.qs[q]? = some e) :
+    (specRun sp1 post).qs[q]? = (specRun sp2 post).qs[q]? := by
+  induction post generalizing sp1 sp2 e with
+  | nil => rw [specRun, specRun, h1, h2]
+  | cons op r ih =>
+    rw [specRun, specRun]
+    have g1 := specStep_getElem sp1 op q e h1
+    have g2 := specStep_getElem sp2 op q e h2
+    rw [hen, hd] at g1
+    obtain ⟨a, b⟩ := specStep_env sp1 sp2 op hen hd
+    exact ih _ _ _ a b g1 g2
+
+/-- application calls that concern OTHER queues: `stream_sub` (any channel, any index form, failing
+    or not) and `stream_unsub` of a queue other than `q` -/
+def foreignTo (q : Nat) : Op → Bool
+  | .sub _ => true
+  | .subNeg _ => true
+  | .unsub k => k != q
+  | _ => false
+
+theorem specStep_foreign (sp : Spec) (op : Op) (q : Nat) (e : QSpec) (h : sp.qs[q]? = some e)
+    (hf : foreignTo q op = true) :
+    (specStep sp op).enabled = sp.enabled ∧ (specStep sp op).dead = sp.dead ∧ (specStep sp op).qs[q]? = some e := by
+  have h3 := specStep_getElem sp op q e h
+  cases op with
+  | sub ch => exact ⟨by simp only [specStep]; split <;> rfl, by simp only [specStep]; split <;> rfl, h3⟩
+  | subNeg k => exact ⟨by simp only [specStep]; split <;> rfl, by simp only [specStep]; split <;> rfl, h3⟩
+  | unsub k =>
+    have hk : ¬ q = k := by
+      intro hqk; subst hqk; simp [foreignTo] at hf
+    refine ⟨rfl, rfl, ?_⟩
+    rw [h3, qStep, if_neg hk]
+  | frame fl ss => cases hf
+  | badFrame => cases hf
+  | setEnabled v => cases hf
+  | restart => cases hf
+
+theorem specRun_foreign (sp : Spec) (xs : List Op) (q : Nat) (e : QSpec) (h : sp.qs[q]? = some e)
+    (hxs : ∀ x ∈ xs, foreignTo q x = true) :
+    (specRun sp xs).enabled = sp.enabled ∧ (specRun sp xs).dead = sp.dead ∧ (specRun sp xs).qs[q]? = some e := by
+  induction xs generalizing sp with
+  | nil => exact ⟨rfl, rfl, h⟩
+  | cons x r ih =>
+    obtain ⟨a, b, c⟩ := specStep_foreign sp x q e h (hxs x List.mem_cons_self)
+    obtain ⟨a', b', c'⟩ := ih (specStep sp x) c (fun y hy => hxs y (List.mem_cons_of_mem _ hy))
+    exact ⟨a'.trans a, b'.trans b, c'⟩
+
+/-- INDEPENDENCE BETWEEN SUBSCRIBERS: what an existing queue `q` receives does not depend on other
+    queues coming and going.  Inserting, anywhere in a history, any number of `stream_sub` calls
+    (any channel — also `q`'s own —, negative or invalid indices) and `stream_unsub` calls of queues
+    other than `q` changes nothing of what `q` holds at the end, whatever follows.
+    Quantifier: all `n`, all histories `pre`, `post`, every queue `q` existing after `pre`, every list
+    `xs` of such calls. -/
+theorem other_subscribers_irrelevant (n : Nat) (pre xs post : List Op) (q : Nat)
+    (hq : q < (run (St.init n) pre).nextQ) (hxs : ∀ x ∈ xs, foreignTo q x = true) :
+    received (run (St.init n) (pre ++ xs ++ post)) q = received (run (St.init n) (pre ++ post)) q := by
+  rw [queue_is_run, queue_is_run, List.append_assoc, specRun_append, specRun_append _ pre post,
+    specRun_append]
+  rw [(inv_reach n pre).nextQ] at hq
+  generalize specRun (Spec.init n) pre = sp at hq
+  have h : sp.qs[q]? = some sp.qs[q] := List.getElem?_eq_getElem hq
+  obtain ⟨a, b, c⟩ := specRun_foreign sp xs q _ h hxs
+  rw [specRun_congr_at (specRun sp xs) sp post q _ a b c h]
+
+/-- instance: queue 0 listens to channel 0; two more subscribers of channel 0 and one of channel 1
+    arrive, one of them leaves again, an invalid `stream_sub(7)` is attempted — queue 0 receives
+    `[1, 2, 3]` with and without them -/
+example : (0 < (run (St.init 2) [.setEnabled [true, true], .sub 0, .frame 0 [⟨0, 1⟩]]).nextQ) ∧
+    (∀ x ∈ [Op.sub 0, .sub 1, .subNeg 1, .unsub 1, .sub 7], foreignTo 0 x = true) ∧
+    received (run (St.init 2) ([.setEnabled [true, true], .sub 0, .frame 0 [⟨0, 1⟩]] ++
+      [.sub 0, .sub 1, .subNeg 1, .unsub 1, .sub 7] ++ [.frame 0 [⟨0, 2⟩, ⟨1, 9⟩], .frame 1 [⟨0, 3⟩]])) 0 = [1, 2, 3] ∧
+    received (run (St.init 2) ([.setEnabled [true, true], .sub 0, .frame 0 [⟨0, 1⟩]] ++
+      [.frame 0 [⟨0, 2⟩, ⟨1, 9⟩], .frame 1 [⟨0, 3⟩]])) 0 = [1, 2, 3] := by decide +kernel
+
+
+/-! ### Round 7 additions — the same from any reachable state, and for every interleaving of the three threads -/
+
+/-- `unsub_is_final` from any state that refines a specification state -/
+theorem unsub_is_final_inv {n : Nat} {s : St} {sp : Spec} (hI : Inv n s sp) (post : List Op) (q : Nat)
+    (hq : q < s.nextQ) : received (run s (.unsub q :: post)) q = received s q := by
+  rw [(inv_run (.unsub q :: post) hI).rcv q, hI.rcv q]
+  rw [hI.nextQ] at hq
+  have h : sp.qs[q]? = some sp.qs[q] := List.getElem?_eq_getElem hq
+  obtain ⟨s1, d1, h1, _, hn1, hd1⟩ := specStep_at sp (.unsub q) q _ h
+  have hs1 : s1 = none := hn1 rfl
+  have hd1' : d1 = [] := by
+    rcases hd1 with hd1 | ⟨c, _, hd1⟩
+    · exact hd1
+    · exact hd1
+  subst hs1 hd1'
+  obtain ⟨s2, d2, h2, _, hn2, _⟩ := specRun_at (specStep sp (.unsub q)) post q _ h1
+  have hd2 : d2 = [] := hn2 rfl
+  subst hd2
+  show ((specRun (specStep sp (.unsub q)) post).qs[q]?.map (·.got)).getD [] = _
+  rw [h2, h]
+  simp
+
+/-- `received_prefix_mono` from any state that refines a specification state -/
+theorem received_prefix_mono_inv {n : Nat} {s : St} {sp : Spec} (hI : Inv n s sp) (post : List Op) (q : Nat) :
+    received s q <+: received (run s post) q := by
+  rw [(inv_run post hI).rcv q, hI.rcv q]
+  cases h : sp.qs[q]? with
+  | none => exact List.nil_prefix
+  | some e =>
+    obtain ⟨s2, d2, h2, _, _, _⟩ := specRun_at sp post q e h
+    rw [h2]
+    exact ⟨d2, rfl⟩
+
+theorem sys_inv (en : List Bool) (evs : List Ev) :
+    Inv en.length (sysRun (Sys.init en) evs).fan (specRun (Spec.initEn en) (sysOps (Sys.init en) evs)) := by
+  rw [sys_fan_is_run]; exact inv_reach_en en _
+
+/-- UNSUBSCRIPTION IS FINAL, THREE THREADS: after any history `pre` of receive thread, stream thread and
+    application (device enable vector `en` at connect), once `stream_unsub(q)` of an existing queue has
+    held the queue lock, no continuation `post` — frames still waiting in `_q_stream` or arriving later
+    and processed in any interleaving, `stream_stop`/`stream_start`, other subscriptions, enable
+    changes — puts anything on `q`.  Quantifier: all `en`, all event histories `pre`, `post`, all
+    existing `q`. -/
+theorem sys_unsub_is_final (en : List Bool) (pre post : List Ev) (q : Nat)
+    (hq : q < (sysRun (Sys.init en) pre).fan.nextQ) :
+    received (sysRun (Sys.init en) (pre ++ [.unsub q] ++ post)).fan q
+      = received (sysRun (Sys.init en) pre).fan q := by
+  have hI := sys_inv en pre
+  rw [List.append_assoc, sysRun_append]
+  generalize sysRun (Sys.init en) pre = s0 at *
+  rw [show [Ev.unsub q] ++ post = .unsub q :: post from rfl, sysRun, sys_fan_is_run, sysStep_fan]
+  show received (run (run s0.fan [.unsub q]) _) q = _
+  rw [← run_append]
+  exact unsub_is_final_inv hI _ q hq
+
+/-- QUEUES ONLY GROW AT THE END, THREE THREADS: for every interleaving, what a queue held at some moment
+    is a prefix of what it holds at any later moment.  Quantifier: all `en`, all event histories. -/
+theorem sys_received_prefix_mono (en : List Bool) (pre post : List Ev) (q : Nat) :
+    received (sysRun (Sys.init en) pre).fan q <+: received (sysRun (Sys.init en) (pre ++ post)).fan q := by
+  have hI := sys_inv en pre
+  rw [sysRun_append]
+  generalize sysRun (Sys.init en) pre = s0 at *
+  rw [sys_fan_is_run]
+  exact received_prefix_mono_inv hI _ q
+
+/-- instance (`sys_unsub_is_final`): a frame is still waiting in `_q_stream` when queue 0 is
+    unsubscribed; it is processed afterwards and reaches queue 1 only -/
+example : let pre : List Ev := [.start, .sub 0, .sub 0, .arrive (.frame 0 [⟨0, 1⟩]), .iter, .arrive (.frame 0 [⟨0, 2⟩])]
+    let post : List Ev := [.iter, .stop, .arrive (.frame 0 [⟨0, 3⟩]), .start, .iter]
+    (0 < (sysRun (Sys.init [true]) pre).fan.nextQ) ∧
+    received (sysRun (Sys.init [true]) (pre ++ [.unsub 0] ++ post)).fan 0 = [1] ∧
+    received (sysRun (Sys.init [true]) (pre ++ [.unsub 0] ++ post)).fan 1 = [1, 2, 3] := by decide +kernel
+
+
+/-! ### Round 7 additions — every subscriber of a channel gets the same -/
+
+theorem qspec_eta (e : QSpec) (c : Nat) (he : e.sub = some c) : e = ⟨some c, e.got ++ []⟩ := by
+  cases e with
+  | mk s g => simp only at he; rw [he, List.append_nil]
+
+theorem qFrame_of_sub (en : List Bool) (ss : List Smp) (e : QSpec) (c : Nat) (he : e.sub = some c) :
+    qFrame en ss e = ⟨some c, e.got ++ group en ss c⟩ := by
+  have h1 := qFrame_sub en ss e
+  have h2 := qFrame_got en ss e
+  rw [he] at h1 h2
+  cases hr : qFrame en ss e with
+  | mk s g => rw [hr] at h1 h2; simp only at h1 h2; rw [h1, h2]
+
+/-- what an op appends to a queue subscribed to `c` does not depend on the queue -/
+theorem qStep_delta (en : List Bool) (dead : Bool) (op : Op) (c : Nat) :
+    ∃ d, ∀ q e, e.sub = some c → op ≠ .unsub q → qStep en dead op q e = ⟨some c, e.got ++ d⟩ := by
+  cases op with
+  | frame fl ss =>
+    by_cases h : dead = true
+    · exact ⟨[], fun q e he _ => by simp only [qStep]; rw [if_pos h]; exact qspec_eta e c he⟩
+    · by_cases hb : ss.any (fun x => x.chan ≥ en.length) = true
+      · exact ⟨[], fun q e he _ => by simp only [qStep]; rw [if_neg h, if_pos hb]; exact qspec_eta e c he⟩
+      · exact ⟨group en ss c, fun q e he _ => by
+          simp only [qStep]; rw [if_neg h, if_neg hb]; exact qFrame_of_sub en ss e c he⟩
+  | unsub k =>
+    exact ⟨[], fun q e he hne => by
+      have hk : ¬ q = k := fun hqk => hne (by rw [hqk])
+      simp only [qStep]; rw [if_neg hk]; exact qspec_eta e c he⟩
+  | badFrame => exact ⟨[], fun q e he _ => qspec_eta e c he⟩
+  | sub ch => exact ⟨[], fun q e he _ => qspec_eta e c he⟩
+  | subNeg k => exact ⟨[], fun q e he _ => qspec_eta e c he⟩
+  | setEnabled v => exact ⟨[], fun q e he _ => qspec_eta e c he⟩
+  | restart => exact ⟨[], fun q e he _ => qspec_eta e c he⟩
+
+theorem specRun_delta (sp : Spec) (post : List Op) (c : Nat) :
+    ∃ d, ∀ q e, sp.qs[q]? = some e → e.sub = some c → (∀ op ∈ post, op ≠ .unsub q) →
+      (specRun sp post).qs[q]? = some ⟨some c, e.got ++ d⟩ := by
+  induction post generalizing sp with
+  | nil => exact ⟨[], fun q e h he _ => by rw [specRun, h, ← qspec_eta e c he]⟩
+  | cons op r ih =>
+    obtain ⟨d1, h1⟩ := qStep_delta sp.enabled sp.dead op c
+    obtain ⟨d2, h2⟩ := ih (specStep sp op)
+    refine ⟨d1 ++ d2, fun q e h he hno => ?_⟩
+    have g := specStep_getElem sp op q e h
+    rw [h1 q e he (hno op List.mem_cons_self)] at g
+    rw [specRun, h2 q _ g rfl (fun o ho => hno o (List.mem_cons_of_mem _ ho)), List.append_assoc]
+
+/-- EVERY SUBSCRIBER OF THE CHANNEL GETS THE SAME: over any history `post` whatsoever (rejected frames,
+    restarts, the channel disabled and re-enabled, other queues subscribing and unsubscribing), all
+    queues that are subscribed to channel `c` at its start and are not unsubscribed during it
+    receive ONE AND THE SAME run `d` of samples, appended to what each held before — no subscriber
+    of a channel is ever served differently from another ("to every subscriber of that channel").
+    Quantifier: all `n`, all `c < n`, all histories `pre`, `post`; `d` is chosen before the queue. -/
+theorem same_channel_same_delivery (n : Nat) (pre post : List Op) (c : Nat) (hc : c < n) :
+    ∃ d, ∀ q, q ∈ (run (St.init n) pre).subs.getD c [] → (∀ op ∈ post, op ≠ .unsub q) →
+      received (run (St.init n) (pre ++ post)) q = received (run (St.init n) pre) q ++ d := by
+  obtain ⟨d, hd⟩ := specRun_delta (specRun (Spec.init n) pre) post c
+  refine ⟨d, fun q hq hno => ?_⟩
+  have hs := (subs_agree n pre c q hc).mp hq
+  rw [queue_is_run, queue_is_run, specRun_append]
+  cases h : (specRun (Spec.init n) pre).qs[q]? with
+  | none => rw [h] at hs; cases hs
+  | some e =>
+    rw [h] at hs
+    have he : e.sub = some c := hs
+    rw [hd q e h he hno]
+    rfl
+
+/-- instance: queues 0 and 2 listen to channel 0 (queue 1 to channel 1); `post` contains a rejected
+    frame, a restart, a disable / enable of channel 0 and an unsubscription of queue 1: queues 0 and 2
+    both get `d = [5, 8]` appended -/
+example : let pre : List Op := [.setEnabled [true, true], .sub 0, .sub 1, .frame 0 [⟨0, 1⟩], .sub 0]
+    let post : List Op := [.frame 0 [⟨0, 5⟩, ⟨1, 6⟩], .unsub 1, .badFrame, .frame 0 [⟨0, 6⟩], .restart,
+      .setEnabled [false, true], .frame 0 [⟨0, 7⟩], .setEnabled [true, true], .frame 1 [⟨0, 8⟩]]
+    (run (St.init 2) pre).subs.getD 0 [] = [0, 2] ∧
+    (∀ op ∈ post, op ≠ .unsub 0 ∧ op ≠ .unsub 2) ∧
+    received (run (St.init 2) pre) 0 = [1] ∧ received (run (St.init 2) pre) 2 = [] ∧
+    received (run (St.init 2) (pre ++ post)) 0 = [1] ++ [5, 8] ∧
+    received (run (St.init 2) (pre ++ post)) 2 = [] ++ [5, 8] := by decide +kernel
+
+
+/-! ### Round 7 additions — flags and empty frames do not disturb delivery, over whole histories -/
+
+/-- the history with every frame's flags byte (overflow flag included) cleared -/
+def clearFlags : Op → Op
+  | .frame _ ss => .frame 0 ss
+  | o => o
+
+theorem specStep_clearFlags (sp : Spec) (op : Op) : specStep sp (clearFlags op) = specStep sp op := by
+  cases op <;> rfl
+
+theorem specRun_clearFlags (sp : Spec) (ops : List Op) : specRun sp (ops.map clearFlags) = specRun sp ops := by
+  induction ops generalizing sp with
+  | nil => rfl
+  | cons op r ih => rw [List.map_cons, specRun, specRun, specStep_clearFlags, ih]
+
+/-- THE FLAGS BYTE NEVER DISTURBS DELIVERY: setting or clearing the overflow flag (any flags value) on
+    any frames of any history changes no queue's content and not whether the stream thread survives
+    (`empty_frames_neutral` is about one frame without relevant samples; this is every frame, with
+    samples, for the whole future).  Quantifier: all `n`, all histories, all queues. -/
+theorem flags_irrelevant (n : Nat) (ops : List Op) (q : Nat) :
+    received (run (St.init n) (ops.map clearFlags)) q = received (run (St.init n) ops) q ∧
+    (run (St.init n) (ops.map clearFlags)).dead = (run (St.init n) ops).dead := by
+  rw [queue_is_run, queue_is_run, (inv_reach n _).dead, (inv_reach n ops).dead, specRun_clearFlags]
+  exact ⟨rfl, rfl⟩
+
+theorem qFrame_nil (en : List Bool) (e : QSpec) : qFrame en [] e = e := by
+  cases e with
+  | mk s g =>
+    cases s with
+    | none => rfl
+    | some c => simp [qFrame]
+
+theorem specStep_empty_frame (sp : Spec) (fl : Nat) : specStep sp (.frame fl []) = sp := by
+  rcases Bool.eq_false_or_eq_true sp.dead with hd | hd
+  · exact specStep_frame_dead fl [] hd
+  · rw [specStep_frame_good fl [] hd rfl]
+    have : qFrame sp.enabled [] = id := funext (qFrame_nil _)
+    rw [this, List.map_id]
+
+def isEmptyFrame : Op → Bool
+  | .frame _ [] => true
+  | _ => false
+
+theorem specRun_filter_empty (sp : Spec) (ops : List Op) :
+    specRun sp (ops.filter (fun o => !isEmptyFrame o)) = specRun sp ops := by
+  induction ops generalizing sp with
+  | nil => rfl
+  | cons op r ih =>
+    cases op with
+    | frame fl ss =>
+      cases ss with
+      | nil => rw [List.filter_cons_of_neg (by simp [isEmptyFrame]), specRun, specStep_empty_frame, ih]
+      | cons x xs => rw [List.filter_cons_of_pos (by simp [isEmptyFrame]), specRun, specRun, ih]
+    | badFrame => rw [List.filter_cons_of_pos (by simp [isEmptyFrame]), specRun, specRun, ih]
+    | sub ch => rw [List.filter_cons_of_pos (by simp [isEmptyFrame]), specRun, specRun, ih]
+    | subNeg k => rw [List.filter_cons_of_pos (by simp [isEmptyFrame]), specRun, specRun, ih]
+    | unsub k => rw [List.filter_cons_of_pos (by simp [isEmptyFrame]), specRun, specRun, ih]
+    | setEnabled v => rw [List.filter_cons_of_pos (by simp [isEmptyFrame]), specRun, specRun, ih]
+    | restart => rw [List.filter_cons_of_pos (by simp [isEmptyFrame]), specRun, specRun, ih]
+
+/-- FRAMES WITHOUT SAMPLES ARE INVISIBLE (F9 over whole histories): deleting every sample-less stream
+    frame (with or without overflow flag) from any history changes no queue's content and not whether
+    the stream thread is alive.  Quantifier: all `n`, all histories, all queues. -/
+theorem empty_frames_removable (n : Nat) (ops : List Op) (q : Nat) :
+    received (run (St.init n) (ops.filter (fun o => !isEmptyFrame o))) q = received (run (St.init n) ops) q ∧
+    (run (St.init n) (ops.filter (fun o => !isEmptyFrame o))).dead = (run (St.init n) ops).dead := by
+  rw [queue_is_run, queue_is_run, (inv_reach n _).dead, (inv_reach n ops).dead, specRun_filter_empty]
+  exact ⟨rfl, rfl⟩
+
+example : ([Op.setEnabled [true], .sub 0, .frame 1 [], .frame 1 [⟨0, 4⟩], .frame 0 [], .frame 3 [⟨0, 5⟩]].map clearFlags
+      = [.setEnabled [true], .sub 0, .frame 0 [], .frame 0 [⟨0, 4⟩], .frame 0 [], .frame 0 [⟨0, 5⟩]]) ∧
+    ([Op.setEnabled [true], .sub 0, .frame 1 [], .frame 1 [⟨0, 4⟩], .frame 0 [], .frame 3 [⟨0, 5⟩]].filter
+      (fun o => !isEmptyFrame o) = [.setEnabled [true], .sub 0, .frame 1 [⟨0, 4⟩], .frame 3 [⟨0, 5⟩]]) ∧
+    received (run (St.init 1) [.setEnabled [true], .sub 0, .frame 1 [], .frame 1 [⟨0, 4⟩], .frame 0 [],
+      .frame 3 [⟨0, 5⟩]]) 0 = [4, 5] := by decide +kernel
+
+
+/-! ### Round 7 additions — complete delivery while other queues subscribe / unsubscribe -/
+
+theorem spec_delivery_mixed (n c q : Nat) (post : List Op) (sp : Spec) (g : List Nat)
+    (hlen : sp.enabled.length = n) (hen : sp.enabled.getD c false = true) (hd : sp.dead = false)
+    (hq : sp.qs[q]? = some ⟨some c, g⟩)
+    (hpost : ∀ op ∈ post, op.wfFrame n = true ∨ foreignTo q op = true) :
+    (specRun sp post).qs[q]? = some ⟨some c, g ++ post.flatMap (Op.samplesOf c)⟩ ∧
+      (specRun sp post).dead = false := by
+  induction post generalizing sp g with
+  | nil => simp [specRun, hq, hd]
+  | cons op r ih =>
+    have hr : ∀ o ∈ r, o.wfFrame n = true ∨ foreignTo q o = true :=
+      fun o ho => hpost o (List.mem_cons_of_mem _ ho)
+    rw [specRun, List.flatMap_cons, ← List.append_assoc]
+    rcases hpost op List.mem_cons_self with hw | hf
+    · cases op with
+      | frame fl ss =>
+        have hb : ss.any (fun x => x.chan ≥ sp.enabled.length) = false := by
+          rw [hlen]; apply any_ge_false_of_lt; simpa [Op.wfFrame] using hw
+        have hstep := specStep_frame_good fl ss hd hb
+        refine ih (specStep sp (.frame fl ss)) _ (by rw [hstep]; exact hlen) (by rw [hstep]; exact hen)
+          (by rw [hstep]; exact hd) ?_ hr
+        rw [specStep_getElem sp _ q _ hq]
+        simp only [qStep]
+        rw [if_neg (by simp [hd]), if_neg (by simp [hb]), qFrame_of_sub _ _ _ c rfl, group_eq, if_pos hen]
+        rfl
+      | badFrame => cases hw
+      | sub ch => cases hw
+      | subNeg k => cases hw
+      | unsub k => cases hw
+      | setEnabled v => cases hw
+      | restart => cases hw
+    · obtain ⟨a, b, c'⟩ := specStep_foreign sp op q _ hq hf
+      have hs : Op.samplesOf c op = [] := by
+        cases op <;> first | rfl | cases hf
+      rw [hs, List.append_nil]
+      exact ih _ g (by rw [a]; exact hlen) (by rw [a]; exact hen) (by rw [b]; exact hd) c' hr
+
+/-- COMPLETE DELIVERY WHILE OTHERS SUBSCRIBE AND UNSUBSCRIBE ("subscribe / unsubscribe while
+    streaming"): `run_since_subscription` with `post` allowed to interleave the well-formed frames with
+    any `stream_sub` calls (any channel, negative or invalid index) and `stream_unsub` calls of OTHER
+    queues: the new subscriber of the enabled channel `c` still receives exactly the `c`-samples of all
+    frames of `post`, each once, in order, and the stream thread stays alive.
+    Quantifier: all `n`, `c < n`, all histories `pre`, all such `post`. -/
+theorem delivery_with_concurrent_subscribers (n : Nat) (pre post : List Op) (c : Nat) (hc : c < n)
+    (hen : (run (St.init n) pre).enabled.getD c false = true)
+    (hdead : (run (St.init n) pre).dead = false)
+    (hpost : ∀ op ∈ post, op.wfFrame n = true ∨ foreignTo (run (St.init n) pre).nextQ op = true) :
+    received (run (St.init n) (pre ++ [.sub c] ++ post)) (run (St.init n) pre).nextQ
+      = post.flatMap (Op.samplesOf c) ∧
+    (run (St.init n) (pre ++ [.sub c] ++ post)).dead = false := by
+  have hI := inv_reach n pre
+  rw [queue_is_run, (inv_reach n _).dead, specRun_append, specRun_append]
+  rw [hI.nextQ] at hpost ⊢
+  rw [hI.en] at hen
+  rw [hI.dead] at hdead
+  have hlen : (specRun (Spec.init n) pre).enabled.length = n := by rw [← hI.en]; exact hI.enLen
+  generalize specRun (Spec.init n) pre = sp at hlen hen hdead hpost
+  have hsp : specRun sp [.sub c] = { sp with qs := sp.qs ++ [⟨some c, []⟩] } := by
+    show specStep sp (.sub c) = _
+    rw [specStep, if_pos (by rw [hlen]; exact hc)]
+  have h1 : (specRun sp [.sub c]).qs[sp.qs.length]? = some ⟨some c, []⟩ := by
+    rw [hsp]; exact List.getElem?_concat_length
+  obtain ⟨h2, h3⟩ := spec_delivery_mixed n c _ post (specRun sp [.sub c]) []
+    (by rw [hsp]; exact hlen) (by rw [hsp]; exact hen) (by rw [hsp]; exact hdead) h1 hpost
+  rw [h2, h3]
+  simp
+
+/-- instance: after queue 0 subscribed to channel 0, queue 1 subscribes to channel 0 and leaves again,
+    queue 2 subscribes to channel 1, an invalid subscription is attempted — between the frames -/
+example : let pre : List Op := [.setEnabled [true, true]]
+    let post : List Op := [.frame 0 [⟨0, 1⟩, ⟨1, 2⟩], .sub 0, .frame 1 [⟨0, 3⟩], .unsub 1, .sub 1, .sub 9,
+      .frame 0 [⟨1, 4⟩, ⟨0, 5⟩]]
+    (run (St.init 2) pre).enabled.getD 0 false = true ∧ (run (St.init 2) pre).dead = false ∧
+    (∀ op ∈ post, op.wfFrame 2 = true ∨ foreignTo (run (St.init 2) pre).nextQ op = true) ∧
+    received (run (St.init 2) (pre ++ [.sub 0] ++ post)) 0 = [1, 3, 5] := by decide +kernel
+
+
+/-! ### Round 7 additions — a channel the client has not enabled stays silent, over whole histories -/
+
+theorem specStep_enabled_of_ne (sp : Spec) (op : Op) (h : ∀ v, op ≠ .setEnabled v) :
+    (specStep sp op).enabled = sp.enabled := by
+  cases op with
+  | setEnabled v => exact absurd rfl (h v)
+  | frame fl ss =>
+    simp only [specStep]
+    split
+    · rfl
+    · split <;> rfl
+  | badFrame => rfl
+  | sub ch => simp only [specStep]; split <;> rfl
+  | subNeg k => simp only [specStep]; split <;> rfl
+  | unsub k => rfl
+  | restart => rfl
+
+theorem qStep_disabled (en : List Bool) (dead : Bool) (op : Op) (q : Nat) (e : QSpec) (c : Nat)
+    (hen : en.getD c false = false) (he : e.sub = some c ∨ e.sub = none) :
+    (qStep en dead op q e).got = e.got ∧
+      ((qStep en dead op q e).sub = some c ∨ (qStep en dead op q e).sub = none) := by
+  have hqf : ∀ ss, qFrame en ss e = e := by
+    intro ss
+    unfold qFrame
+    rcases he with he | he
+    · rw [he]
+      show (if en.getD c false = true then _ else e) = e
+      rw [if_neg (by rw [hen]; exact Bool.false_ne_true)]
+    · rw [he]
+  cases op with
+  | frame fl ss =>
+    simp only [qStep]
+    split
+    · exact ⟨rfl, he⟩
+    · split
+      · exact ⟨rfl, he⟩
+      · rw [hqf]; exact ⟨rfl, he⟩
+  | unsub k =>
+    simp only [qStep]
+    split
+    · exact ⟨rfl, .inr rfl⟩
+    · exact ⟨rfl, he⟩
+  | badFrame => exact ⟨rfl, he⟩
+  | sub ch => exact ⟨rfl, he⟩
+  | subNeg k => exact ⟨rfl, he⟩
+  | setEnabled v => exact ⟨rfl, he⟩
+  | restart => exact ⟨rfl, he⟩
+
+theorem specRun_disabled (sp : Spec) (post : List Op) (q : Nat) (e : QSpec) (c : Nat)
+    (hen : sp.enabled.getD c false = false) (h : sp.qs[q]? = some e)
+    (he : e.sub = some c ∨ e.sub = none) (hpost : ∀ op ∈ post, ∀ v, op ≠ .setEnabled v) :
+    (specRun sp post).qs[q]?.map (·.got) = some e.got := by
+  induction post generalizing sp e with
+  | nil => rw [specRun, h]; rfl
+  | cons op r ih =>
+    have g := specStep_getElem sp op q e h
+    obtain ⟨a, b⟩ := qStep_disabled sp.enabled sp.dead op q e c hen he
+    rw [specRun, ih (specStep sp op) _
+      (by rw [specStep_enabled_of_ne sp op (hpost op List.mem_cons_self)]; exact hen) g b
+      (fun o ho => hpost o (List.mem_cons_of_mem _ ho)), a]
+
+/-- NOTHING FOR CHANNELS THE CLIENT HAS NOT ENABLED, over whole histories: a queue subscribed to a
+    channel that is not enabled at that moment stays EMPTY for as long as no `channels_write` assigns
+    the enable vector — whatever the device sends for that channel (a device that streams a channel the
+    client believes disabled), whoever else subscribes, through thread death and restart.
+    (`no_leak` is the one-frame statement.)  Quantifier: all `n`, `c < n`, all `pre`, all `post` without
+    `setEnabled`. -/
+theorem disabled_channel_silent (n : Nat) (pre post : List Op) (c : Nat) (hc : c < n)
+    (hen : (run (St.init n) pre).enabled.getD c false = false)
+    (hpost : ∀ op ∈ post, ∀ v, op ≠ .setEnabled v) :
+    received (run (St.init n) (pre ++ [.sub c] ++ post)) (run (St.init n) pre).nextQ = [] := by
+  have hI := inv_reach n pre
+  rw [queue_is_run, specRun_append, specRun_append, hI.nextQ]
+  rw [hI.en] at hen
+  have hlen : (specRun (Spec.init n) pre).enabled.length = n := by rw [← hI.en]; exact hI.enLen
+  generalize specRun (Spec.init n) pre = sp at hlen hen
+  have hsp : specRun sp [.sub c] = { sp with qs := sp.qs ++ [⟨some c, []⟩] } := by
+    show specStep sp (.sub c) = _
+    rw [specStep, if_pos (by rw [hlen]; exact hc)]
+  have h1 : (specRun sp [.sub c]).qs[sp.qs.length]? = some ⟨some c, []⟩ := by
+    rw [hsp]; exact List.getElem?_concat_length
+  rw [specRun_disabled (specRun sp [.sub c]) post _ _ c (by rw [hsp]; exact hen) h1 (.inl rfl) hpost]
+  rfl
+
+/-- instance: channel 1 of a 2-channel device is not enabled; the device streams it anyway -/
+example : (run (St.init 2) [.setEnabled [true, false]]).enabled.getD 1 false = false ∧
+    (∀ op ∈ [Op.frame 0 [⟨1, 1⟩, ⟨0, 2⟩], .sub 1, .frame 1 [⟨1, 3⟩], .badFrame, .restart, .frame 0 [⟨1, 4⟩]],
+      ∀ v, op ≠ .setEnabled v) ∧
+    received (run (St.init 2) ([.setEnabled [true, false]] ++ [.sub 1] ++
+      [.frame 0 [⟨1, 1⟩, ⟨0, 2⟩], .sub 1, .frame 1 [⟨1, 3⟩], .badFrame, .restart, .frame 0 [⟨1, 4⟩]])) 0 = [] := by
+  refine ⟨by decide, ?_, by decide +kernel⟩
+  intro op hop v hv
+  subst hv
+  simp at hop
+
+
 end Nxs.C08
